@@ -1204,7 +1204,8 @@ aiff_rewrite_header (SF_PRIVATE *psf)
 		} ;
 
 	/* PEAK chunk. */
-	if ((k = psf_find_read_chunk_m32 (&psf->rchunks, PEAK_MARKER)) >= 0)
+	/* (The peak data is gone when SFC_SET_ADD_PEAK_CHUNK was switched off on this handle : leave the chunk as it is then.) */
+	if (psf->peak_info != NULL && (k = psf_find_read_chunk_m32 (&psf->rchunks, PEAK_MARKER)) >= 0)
 	{	psf->header.indx = psf->rchunks.chunks [k].offset - 8 ;
 		psf_binheader_writef (psf, "Em4", BHWm (PEAK_MARKER), BHW4 (AIFF_PEAK_CHUNK_SIZE (psf->sf.channels))) ;
 		psf_binheader_writef (psf, "E44", BHW4 (1), BHW4 (time (NULL))) ;
